@@ -1,0 +1,23 @@
+//go:build verif
+
+package node
+
+// Add-only hook for the /verif correspondence harness (property C14). Built only with
+// `-tags verif`; nothing here is reachable from production code.
+
+import (
+	cfg "github.com/tendermint/tendermint/config"
+	cs "github.com/tendermint/tendermint/consensus"
+	sm "github.com/tendermint/tendermint/state"
+	"github.com/tendermint/tendermint/statesync"
+	"github.com/tendermint/tendermint/store"
+)
+
+// VerifStartStateSync runs the node's real hand-over from state sync (startStateSync, fast sync
+// afterwards) with the given reactor, state provider and stores.
+func VerifStartStateSync(ssR *statesync.Reactor, bcR interface{ SwitchToFastSync(sm.State) error },
+	stateProvider statesync.StateProvider, config *cfg.StateSyncConfig,
+	stateStore sm.Store, blockStore *store.BlockStore, state sm.State) error {
+	return startStateSync(ssR, bcR, &cs.Reactor{Metrics: cs.NopMetrics()}, stateProvider, config, true,
+		stateStore, blockStore, state)
+}
